@@ -832,7 +832,7 @@ type stmt =
 | SArrDivSc of var * var * expr
 | SCall of nat * target list * char list * arg list
 | SSeq of stmt * stmt
-| SIf of expr * stmt * stmt
+| SIf of nat * expr * stmt * stmt
 | SWhile of nat * expr * stmt
 | SFor of nat * var * expr * expr * stmt
 | SForRun of nat * var * z * z * stmt
@@ -1702,7 +1702,7 @@ let rec exec env fuel c st =
        (match exec env f a st with
         | Normal st' -> exec env f b st'
         | x -> x)
-     | SIf (c0, a, b) ->
+     | SIf (_, c0, a, b) ->
        (match eval c0 st with
         | Ok v -> if truthy v then exec env f a st else exec env f b st
         | Er e -> Err e)
@@ -1773,14 +1773,15 @@ let k_jitrestrict =
       (EVar ('m'::[])))),
       (seq ((SWhile ((S (S O)), (ECmp (Lt0, (EVar ('t'::[])), (EVar
         ('n'::[])))),
-        (seq ((SIf ((ECmp (Ge, (ERead1 ((S (S O)),
+        (seq ((SIf ((S (S (S O))), (ECmp (Ge, (ERead1 ((S (S O)),
           ('t'::('i'::('m'::('e'::('_'::('a'::('r'::('r'::('a'::('y'::[])))))))))),
           (EVar ('t'::[])))), (ERead1 ((S (S (S O))),
           ('s'::('t'::('a'::('r'::('t'::('s'::[])))))), (EVar ('k'::[])))))),
           (seq (SBreak :: [])), SSkip)) :: ((SAssign (('t'::[]), (EBin (Add,
           (EVar ('t'::[])), (EInt (Zpos XH)))))) :: []))))) :: ((SWhile ((S
-        (S (S O))), (ECmp (Lt0, (EVar ('t'::[])), (EVar ('n'::[])))),
-        (seq ((SIf ((ECmp (Gt0, (ERead1 ((S (S (S (S O)))),
+        (S (S (S O)))), (ECmp (Lt0, (EVar ('t'::[])), (EVar ('n'::[])))),
+        (seq ((SIf ((S (S (S (S (S O))))), (ECmp (Gt0, (ERead1 ((S (S (S (S
+          O)))),
           ('t'::('i'::('m'::('e'::('_'::('a'::('r'::('r'::('a'::('y'::[])))))))))),
           (EVar ('t'::[])))), (ERead1 ((S (S (S (S (S O))))),
           ('e'::('n'::('d'::('s'::[])))), (EVar ('k'::[])))))),
@@ -1790,9 +1791,10 @@ let k_jitrestrict =
             ('x'::[])), (EVar ('t'::[])))) :: ((SAssign (('x'::[]), (EBin
             (Add, (EVar ('x'::[])), (EInt (Zpos XH)))))) :: []))))) :: ((SAssign
           (('t'::[]), (EBin (Add, (EVar ('t'::[])), (EInt (Zpos
-          XH)))))) :: []))))) :: ((SIf ((ECmp (Eq0, (EVar ('k'::[])), (EVar
-        ('m'::[])))), (seq (SBreak :: [])), SSkip)) :: ((SIf ((ECmp (Eq0,
-        (EVar ('t'::[])), (EVar ('n'::[])))), (seq (SBreak :: [])),
+          XH)))))) :: []))))) :: ((SIf ((S (S (S (S (S (S O)))))), (ECmp
+        (Eq0, (EVar ('k'::[])), (EVar ('m'::[])))), (seq (SBreak :: [])),
+        SSkip)) :: ((SIf ((S (S (S (S (S (S (S O))))))), (ECmp (Eq0, (EVar
+        ('t'::[])), (EVar ('n'::[])))), (seq (SBreak :: [])),
         SSkip)) :: []))))))) :: ((SSlice (('_'::('t'::('0'::[]))),
       ('i'::('x'::[])), (EInt Z0), (EVar ('x'::[])))) :: ((SReturn ((AVar
       ('_'::('t'::('0'::[])))) :: [])) :: []))))))))))) }
@@ -1825,14 +1827,15 @@ let k_jitrestrict_with_count =
       (EVar ('m'::[])))),
       (seq ((SWhile ((S (S O)), (ECmp (Lt0, (EVar ('t'::[])), (EVar
         ('n'::[])))),
-        (seq ((SIf ((ECmp (Ge, (ERead1 ((S (S O)),
+        (seq ((SIf ((S (S (S O))), (ECmp (Ge, (ERead1 ((S (S O)),
           ('t'::('i'::('m'::('e'::('_'::('a'::('r'::('r'::('a'::('y'::[])))))))))),
           (EVar ('t'::[])))), (ERead1 ((S (S (S O))),
           ('s'::('t'::('a'::('r'::('t'::('s'::[])))))), (EVar ('k'::[])))))),
           (seq (SBreak :: [])), SSkip)) :: ((SAssign (('t'::[]), (EBin (Add,
           (EVar ('t'::[])), (EInt (Zpos XH)))))) :: []))))) :: ((SWhile ((S
-        (S (S O))), (ECmp (Lt0, (EVar ('t'::[])), (EVar ('n'::[])))),
-        (seq ((SIf ((ECmp (Gt0, (ERead1 ((S (S (S (S O)))),
+        (S (S (S O)))), (ECmp (Lt0, (EVar ('t'::[])), (EVar ('n'::[])))),
+        (seq ((SIf ((S (S (S (S (S O))))), (ECmp (Gt0, (ERead1 ((S (S (S (S
+          O)))),
           ('t'::('i'::('m'::('e'::('_'::('a'::('r'::('r'::('a'::('y'::[])))))))))),
           (EVar ('t'::[])))), (ERead1 ((S (S (S (S (S O))))),
           ('e'::('n'::('d'::('s'::[])))), (EVar ('k'::[])))))),
@@ -1846,9 +1849,10 @@ let k_jitrestrict_with_count =
             (Zpos XH)))))) :: ((SAssign (('x'::[]), (EBin (Add, (EVar
             ('x'::[])), (EInt (Zpos XH)))))) :: [])))))) :: ((SAssign
           (('t'::[]), (EBin (Add, (EVar ('t'::[])), (EInt (Zpos
-          XH)))))) :: []))))) :: ((SIf ((ECmp (Eq0, (EVar ('k'::[])), (EVar
-        ('m'::[])))), (seq (SBreak :: [])), SSkip)) :: ((SIf ((ECmp (Eq0,
-        (EVar ('t'::[])), (EVar ('n'::[])))), (seq (SBreak :: [])),
+          XH)))))) :: []))))) :: ((SIf ((S (S (S (S (S (S O)))))), (ECmp
+        (Eq0, (EVar ('k'::[])), (EVar ('m'::[])))), (seq (SBreak :: [])),
+        SSkip)) :: ((SIf ((S (S (S (S (S (S (S O))))))), (ECmp (Eq0, (EVar
+        ('t'::[])), (EVar ('n'::[])))), (seq (SBreak :: [])),
         SSkip)) :: []))))))) :: ((SSlice (('_'::('t'::('0'::[]))),
       ('i'::('x'::[])), (EInt Z0), (EVar ('x'::[])))) :: ((SReturn ((AVar
       ('_'::('t'::('0'::[])))) :: ((AVar
@@ -1870,11 +1874,11 @@ let k_jitvaluefrom =
       ('t'::('i'::('m'::('e'::('_'::('a'::('r'::('r'::('a'::('y'::[]))))))))))))) :: ((SAssign
       (('d'::[]), (ELen
       ('t'::('i'::('m'::('e'::('_'::('t'::('a'::('r'::('g'::('e'::('t'::('_'::('a'::('r'::('r'::('a'::('y'::[])))))))))))))))))))) :: ((SNew1
-      (('i'::('d'::('x'::[]))), DFlt, (EVar ('n'::[])), ENan)) :: ((SIf
-      ((EAnd ((ECmp (Gt0, (EVar ('n'::[])), (EInt Z0))), (ECmp (Gt0, (EVar
+      (('i'::('d'::('x'::[]))), DFlt, (EVar ('n'::[])), ENan)) :: ((SIf (O,
+      (EAnd ((ECmp (Gt0, (EVar ('n'::[])), (EInt Z0))), (ECmp (Gt0, (EVar
       ('d'::[])), (EInt Z0))))),
-      (seq ((SFor (O, ('k'::[]), (EInt Z0), (EVar ('m'::[])),
-        (seq ((SIf ((EAnd ((ECmp (Gt0, (ERead1 (O,
+      (seq ((SFor ((S O), ('k'::[]), (EInt Z0), (EVar ('m'::[])),
+        (seq ((SIf ((S (S O)), (EAnd ((ECmp (Gt0, (ERead1 (O,
           ('c'::('o'::('u'::('n'::('t'::[]))))), (EVar ('k'::[])))), (EInt
           Z0))), (ECmp (Gt0, (ERead1 ((S O),
           ('c'::('o'::('u'::('n'::('t'::('_'::('t'::('a'::('r'::('g'::('e'::('t'::[])))))))))))),
@@ -1889,10 +1893,10 @@ let k_jitvaluefrom =
             ('k'::[])))))))) :: ((SAssign (('m'::('a'::('x'::('i'::[])))),
             (EBin (Add, (EVar ('i'::[])), (ERead1 ((S (S (S O))),
             ('c'::('o'::('u'::('n'::('t'::('_'::('t'::('a'::('r'::('g'::('e'::('t'::[])))))))))))),
-            (EVar ('k'::[])))))))) :: ((SWhile ((S O), (ECmp (Lt0, (EVar
-            ('t'::[])), (EVar ('m'::('a'::('x'::('t'::[]))))))),
-            (seq ((SIf ((ECmp (Ne, (EVar ('m'::('o'::('d'::('e'::[]))))),
-              (EInt (Zpos XH)))),
+            (EVar ('k'::[])))))))) :: ((SWhile ((S (S (S O))), (ECmp (Lt0,
+            (EVar ('t'::[])), (EVar ('m'::('a'::('x'::('t'::[]))))))),
+            (seq ((SIf ((S (S (S (S O)))), (ECmp (Ne, (EVar
+              ('m'::('o'::('d'::('e'::[]))))), (EInt (Zpos XH)))),
               (seq ((SAssign
                 (('i'::('n'::('t'::('e'::('r'::('v'::('a'::('l'::[])))))))),
                 (EBin (Sub, (ERead1 ((S (S (S (S O)))),
@@ -1914,11 +1918,11 @@ let k_jitvaluefrom =
               Z0))), (ECmp (Gt0, (EVar
               ('i'::('n'::('t'::('e'::('r'::('v'::('a'::('l'::[]))))))))),
               (EInt Z0))))))) :: ((SAssign (('i'::[]), (EBin (Add, (EVar
-              ('i'::[])), (EInt (Zpos XH)))))) :: ((SWhile ((S (S O)), (ECmp
-              (Lt0, (EVar ('i'::[])), (EVar
+              ('i'::[])), (EInt (Zpos XH)))))) :: ((SWhile ((S (S (S (S (S
+              O))))), (ECmp (Lt0, (EVar ('i'::[])), (EVar
               ('m'::('a'::('x'::('i'::[]))))))),
-              (seq ((SIf ((ECmp (Ne, (EVar ('m'::('o'::('d'::('e'::[]))))),
-                (EInt (Zpos XH)))),
+              (seq ((SIf ((S (S (S (S (S (S O)))))), (ECmp (Ne, (EVar
+                ('m'::('o'::('d'::('e'::[]))))), (EInt (Zpos XH)))),
                 (seq ((SAssign
                   (('n'::('e'::('w'::('_'::('i'::('n'::('t'::('e'::('r'::('v'::('a'::('l'::[])))))))))))),
                   (EBin (Sub, (ERead1 ((S (S (S (S (S (S (S (S (S O))))))))),
@@ -1964,9 +1968,10 @@ let k_jitvaluefrom =
                   (EVar
                   ('i'::('n'::('t'::('e'::('r'::('v'::('a'::('l'::[]))))))))))))) :: ((SAssign
                   (('n'::('a'::('n'::('_'::('c'::('o'::('n'::('d'::[])))))))),
-                  (EBool false))) :: [])))))) :: ((SIf ((EVar
+                  (EBool false))) :: [])))))) :: ((SIf ((S (S (S (S (S (S (S
+                O))))))), (EVar
                 ('b'::('r'::('e'::('a'::('k'::('_'::('c'::('o'::('n'::('d'::[]))))))))))),
-                (seq ((SIf ((EVar
+                (seq ((SIf ((S (S (S (S (S (S (S (S O)))))))), (EVar
                   ('n'::('a'::('n'::('_'::('c'::('o'::('n'::('d'::[]))))))))),
                   (seq ((SStore1 ((S (S (S (S (S (S (S (S (S (S (S (S (S
                     O))))))))))))), ('i'::('d'::('x'::[]))), (EVar
@@ -1978,10 +1983,12 @@ let k_jitvaluefrom =
                   (EVar
                   ('n'::('e'::('w'::('_'::('i'::('n'::('t'::('e'::('r'::('v'::('a'::('l'::[]))))))))))))))) :: ((SAssign
                   (('i'::[]), (EBin (Add, (EVar ('i'::[])), (EInt (Zpos
-                  XH)))))) :: [])))))) :: []))))) :: ((SIf ((ECmp (Eq0, (EVar
-              ('i'::[])), (EVar ('m'::('a'::('x'::('i'::[]))))))),
-              (seq ((SIf ((ECmp (Eq0, (EVar ('m'::('o'::('d'::('e'::[]))))),
-                (EInt (Zpos (XO XH))))),
+                  XH)))))) :: [])))))) :: []))))) :: ((SIf ((S (S (S (S (S (S
+              (S (S (S O))))))))), (ECmp (Eq0, (EVar ('i'::[])), (EVar
+              ('m'::('a'::('x'::('i'::[]))))))),
+              (seq ((SIf ((S (S (S (S (S (S (S (S (S (S O)))))))))), (ECmp
+                (Eq0, (EVar ('m'::('o'::('d'::('e'::[]))))), (EInt (Zpos (XO
+                XH))))),
                 (seq ((SAssign
                   (('n'::('e'::('w'::('_'::('i'::('n'::('t'::('e'::('r'::('v'::('a'::('l'::[])))))))))))),
                   (EBin (Sub, (ERead1 ((S (S (S (S (S (S (S (S (S (S (S (S (S
@@ -1995,7 +2002,8 @@ let k_jitvaluefrom =
                   (('n'::('a'::('n'::('_'::('c'::('o'::('n'::('d'::[])))))))),
                   (ECmp (Lt0, (EVar
                   ('n'::('e'::('w'::('_'::('i'::('n'::('t'::('e'::('r'::('v'::('a'::('l'::[]))))))))))))),
-                  (EInt Z0))))) :: []))), SSkip)) :: ((SIf ((EVar
+                  (EInt Z0))))) :: []))), SSkip)) :: ((SIf ((S (S (S (S (S (S
+                (S (S (S (S (S O))))))))))), (EVar
                 ('n'::('a'::('n'::('_'::('c'::('o'::('n'::('d'::[]))))))))),
                 (seq ((SStore1 ((S (S (S (S (S (S (S (S (S (S (S (S (S (S (S
                   (S (S O))))))))))))))))), ('i'::('d'::('x'::[]))), (EVar
@@ -2029,7 +2037,7 @@ let k_jitcount =
       (('n'::('b'::('_'::('b'::('i'::('n'::('s'::[]))))))), DInt, (EVar
       ('m'::[])), (EInt Z0))) :: ((SFor ((S O), ('k'::[]), (EInt Z0), (EVar
       ('m'::[])),
-      (seq ((SIf ((ECmp (Gt0, (EBin (Sub, (ERead1 ((S O),
+      (seq ((SIf ((S (S O)), (ECmp (Gt0, (EBin (Sub, (ERead1 ((S O),
         ('e'::('n'::('d'::('s'::[])))), (EVar ('k'::[])))), (ERead1 ((S (S
         O)), ('s'::('t'::('a'::('r'::('t'::('s'::[])))))), (EVar
         ('k'::[])))))), (EVar
@@ -2053,8 +2061,8 @@ let k_jitcount =
       Z0))) :: ((SNew1 (('c'::('n'::('t'::[]))), DInt, (EVar
       ('n'::('b'::[]))), (EInt Z0))) :: ((SAssign (('k'::[]), (EInt
       Z0))) :: ((SAssign (('t'::[]), (EInt Z0))) :: ((SAssign (('b'::[]),
-      (EInt Z0))) :: ((SWhile ((S (S O)), (ECmp (Lt0, (EVar ('k'::[])), (EVar
-      ('m'::[])))),
+      (EInt Z0))) :: ((SWhile ((S (S (S O))), (ECmp (Lt0, (EVar ('k'::[])),
+      (EVar ('m'::[])))),
       (seq ((SAssign (('m'::('a'::('x'::('b'::[])))), (EBin (Add, (EVar
         ('b'::[])), (ERead1 ((S (S (S (S (S (S (S O))))))),
         ('n'::('b'::('_'::('b'::('i'::('n'::('s'::[]))))))), (EVar
@@ -2065,15 +2073,16 @@ let k_jitcount =
         (('l'::('b'::('o'::('u'::('n'::('d'::[])))))), (ERead1 ((S (S (S (S
         (S (S (S (S (S O))))))))),
         ('s'::('t'::('a'::('r'::('t'::('s'::[])))))), (EVar
-        ('k'::[])))))) :: ((SWhile ((S (S (S O))), (ECmp (Lt0, (EVar
+        ('k'::[])))))) :: ((SWhile ((S (S (S (S O)))), (ECmp (Lt0, (EVar
         ('b'::[])), (EVar ('m'::('a'::('x'::('b'::[]))))))),
-        (seq ((SAssign (('x'::('p'::('o'::('s'::[])))), (EBin (Add, (EVar
-          ('l'::('b'::('o'::('u'::('n'::('d'::[]))))))), (EBin (Div, (EVar
+        (seq ((SAssign (('x'::('p'::('o'::('s'::[])))), (EUn (Round9, (EBin
+          (Add, (EVar ('l'::('b'::('o'::('u'::('n'::('d'::[]))))))), (EBin
+          (Div, (EVar
           ('b'::('i'::('n'::('_'::('s'::('i'::('z'::('e'::[]))))))))), (EInt
-          (Zpos (XO XH))))))))) :: ((SIf ((ECmp (Gt0, (EVar
-          ('x'::('p'::('o'::('s'::[]))))), (ERead1 ((S (S (S (S (S (S (S (S
-          (S (S O)))))))))), ('e'::('n'::('d'::('s'::[])))), (EVar
-          ('k'::[])))))), (seq (SBreak :: [])),
+          (Zpos (XO XH))))))))))) :: ((SIf ((S (S (S (S (S O))))), (ECmp
+          (Gt0, (EVar ('x'::('p'::('o'::('s'::[]))))), (ERead1 ((S (S (S (S
+          (S (S (S (S (S (S O)))))))))), ('e'::('n'::('d'::('s'::[])))),
+          (EVar ('k'::[])))))), (seq (SBreak :: [])),
           (seq ((SStore1 ((S (S (S (S (S (S (S (S (S (S (S O))))))))))),
             ('b'::('i'::('n'::('s'::[])))), (EVar ('b'::[])), (EVar
             ('x'::('p'::('o'::('s'::[]))))))) :: ((SAssign
@@ -2081,10 +2090,10 @@ let k_jitcount =
             (EBin (Add, (EVar ('l'::('b'::('o'::('u'::('n'::('d'::[]))))))),
             (EVar
             ('b'::('i'::('n'::('_'::('s'::('i'::('z'::('e'::[]))))))))))))))) :: ((SWhile
-            ((S (S (S (S O)))), (ECmp (Lt0, (EVar ('t'::[])), (EVar
+            ((S (S (S (S (S (S O)))))), (ECmp (Lt0, (EVar ('t'::[])), (EVar
             ('m'::('a'::('x'::('t'::[]))))))),
-            (seq ((SIf ((ECmp (Lt0, (ERead1 ((S (S (S (S (S (S (S (S (S (S (S
-              (S O)))))))))))),
+            (seq ((SIf ((S (S (S (S (S (S (S O))))))), (ECmp (Lt0, (ERead1
+              ((S (S (S (S (S (S (S (S (S (S (S (S O)))))))))))),
               ('t'::('i'::('m'::('e'::('_'::('a'::('r'::('r'::('a'::('y'::[])))))))))),
               (EVar ('t'::[])))), (EVar
               ('r'::('b'::('o'::('u'::('n'::('d'::[]))))))))),
@@ -2141,14 +2150,15 @@ let k_jitin_interval =
       (EVar ('m'::[])))),
       (seq ((SWhile ((S (S O)), (ECmp (Lt0, (EVar ('t'::[])), (EVar
         ('n'::[])))),
-        (seq ((SIf ((ECmp (Ge, (ERead1 ((S (S O)),
+        (seq ((SIf ((S (S (S O))), (ECmp (Ge, (ERead1 ((S (S O)),
           ('t'::('i'::('m'::('e'::('_'::('a'::('r'::('r'::('a'::('y'::[])))))))))),
           (EVar ('t'::[])))), (ERead1 ((S (S (S O))),
           ('s'::('t'::('a'::('r'::('t'::('s'::[])))))), (EVar ('k'::[])))))),
           (seq (SBreak :: [])), SSkip)) :: ((SAssign (('t'::[]), (EBin (Add,
           (EVar ('t'::[])), (EInt (Zpos XH)))))) :: []))))) :: ((SWhile ((S
-        (S (S O))), (ECmp (Lt0, (EVar ('t'::[])), (EVar ('n'::[])))),
-        (seq ((SIf ((ECmp (Gt0, (ERead1 ((S (S (S (S O)))),
+        (S (S (S O)))), (ECmp (Lt0, (EVar ('t'::[])), (EVar ('n'::[])))),
+        (seq ((SIf ((S (S (S (S (S O))))), (ECmp (Gt0, (ERead1 ((S (S (S (S
+          O)))),
           ('t'::('i'::('m'::('e'::('_'::('a'::('r'::('r'::('a'::('y'::[])))))))))),
           (EVar ('t'::[])))), (ERead1 ((S (S (S (S (S O))))),
           ('e'::('n'::('d'::('s'::[])))), (EVar ('k'::[])))))),
@@ -2157,9 +2167,10 @@ let k_jitin_interval =
           (seq ((SStore1 ((S (S (S (S (S (S O)))))),
             ('d'::('a'::('t'::('a'::[])))), (EVar ('t'::[])), (EVar
             ('k'::[])))) :: [])))) :: ((SAssign (('t'::[]), (EBin (Add, (EVar
-          ('t'::[])), (EInt (Zpos XH)))))) :: []))))) :: ((SIf ((ECmp (Eq0,
-        (EVar ('k'::[])), (EVar ('m'::[])))), (seq (SBreak :: [])),
-        SSkip)) :: ((SIf ((ECmp (Eq0, (EVar ('t'::[])), (EVar ('n'::[])))),
+          ('t'::[])), (EInt (Zpos XH)))))) :: []))))) :: ((SIf ((S (S (S (S
+        (S (S O)))))), (ECmp (Eq0, (EVar ('k'::[])), (EVar ('m'::[])))),
+        (seq (SBreak :: [])), SSkip)) :: ((SIf ((S (S (S (S (S (S (S
+        O))))))), (ECmp (Eq0, (EVar ('t'::[])), (EVar ('n'::[])))),
         (seq (SBreak :: [])), SSkip)) :: []))))))) :: ((SReturn ((AVar
       ('d'::('a'::('t'::('a'::[]))))) :: [])) :: []))))))))) }
 
@@ -2178,15 +2189,15 @@ let k_jitremove_nan =
       (('i'::('x'::('_'::('s'::('t'::('a'::('r'::('t'::[])))))))), DBool,
       (EVar ('n'::[])), (EInt Z0))) :: ((SNew1
       (('i'::('x'::('_'::('e'::('n'::('d'::[])))))), DBool, (EVar ('n'::[])),
-      (EInt Z0))) :: ((SIf ((ENot (ERead1 (O,
+      (EInt Z0))) :: ((SIf (O, (ENot (ERead1 (O,
       ('i'::('n'::('d'::('e'::('x'::('_'::('n'::('a'::('n'::[]))))))))),
       (EInt Z0)))),
       (seq ((SStore1 ((S O),
         ('i'::('x'::('_'::('s'::('t'::('a'::('r'::('t'::[])))))))), (EInt
         Z0), (EBool true))) :: [])), SSkip)) :: ((SAssign (('t'::[]), (EInt
-      (Zpos XH)))) :: ((SWhile (O, (ECmp (Lt0, (EVar ('t'::[])), (EVar
+      (Zpos XH)))) :: ((SWhile ((S O), (ECmp (Lt0, (EVar ('t'::[])), (EVar
       ('n'::[])))),
-      (seq ((SIf ((EAnd ((ERead1 ((S (S O)),
+      (seq ((SIf ((S (S O)), (EAnd ((ERead1 ((S (S O)),
         ('i'::('n'::('d'::('e'::('x'::('_'::('n'::('a'::('n'::[]))))))))),
         (EBin (Sub, (EVar ('t'::[])), (EInt (Zpos XH)))))), (ENot (ERead1 ((S
         (S (S O))),
@@ -2194,8 +2205,8 @@ let k_jitremove_nan =
         (EVar ('t'::[]))))))),
         (seq ((SStore1 ((S (S (S (S O)))),
           ('i'::('x'::('_'::('s'::('t'::('a'::('r'::('t'::[])))))))), (EVar
-          ('t'::[])), (EBool true))) :: [])), SSkip)) :: ((SIf ((EAnd ((ENot
-        (ERead1 ((S (S (S (S (S O))))),
+          ('t'::[])), (EBool true))) :: [])), SSkip)) :: ((SIf ((S (S (S
+        O))), (EAnd ((ENot (ERead1 ((S (S (S (S (S O))))),
         ('i'::('n'::('d'::('e'::('x'::('_'::('n'::('a'::('n'::[]))))))))),
         (EBin (Sub, (EVar ('t'::[])), (EInt (Zpos XH))))))), (ERead1 ((S (S
         (S (S (S (S O)))))),
@@ -2205,8 +2216,8 @@ let k_jitremove_nan =
           ('i'::('x'::('_'::('e'::('n'::('d'::[])))))), (EBin (Sub, (EVar
           ('t'::[])), (EInt (Zpos XH)))), (EBool true))) :: [])),
         SSkip)) :: ((SAssign (('t'::[]), (EBin (Add, (EVar ('t'::[])), (EInt
-        (Zpos XH)))))) :: [])))))) :: ((SIf ((ENot (ERead1 ((S (S (S (S (S (S
-      (S (S O)))))))),
+        (Zpos XH)))))) :: [])))))) :: ((SIf ((S (S (S (S O)))), (ENot (ERead1
+      ((S (S (S (S (S (S (S (S O)))))))),
       ('i'::('n'::('d'::('e'::('x'::('_'::('n'::('a'::('n'::[]))))))))),
       (EBin (Sub, (ELen
       ('i'::('n'::('d'::('e'::('x'::('_'::('n'::('a'::('n'::[])))))))))),
@@ -2237,23 +2248,23 @@ let k_jitthreshold =
     fbody =
     (seq ((SAssign (('n'::[]), (ELen
       ('t'::('i'::('m'::('e'::('_'::('a'::('r'::('r'::('a'::('y'::[]))))))))))))) :: ((SIf
-      ((ECmp (Eq0, (EVar ('m'::('e'::('t'::('h'::('o'::('d'::[]))))))), (EInt
-      Z0))),
+      (O, (ECmp (Eq0, (EVar ('m'::('e'::('t'::('h'::('o'::('d'::[]))))))),
+      (EInt Z0))),
       (seq ((SCmpArr (('i'::('x'::[])), Gt0,
         ('d'::('a'::('t'::('a'::('_'::('a'::('r'::('r'::('a'::('y'::[])))))))))),
         (EVar ('t'::('h'::('r'::[])))))) :: [])),
-      (seq ((SIf ((ECmp (Eq0, (EVar
+      (seq ((SIf ((S O), (ECmp (Eq0, (EVar
         ('m'::('e'::('t'::('h'::('o'::('d'::[]))))))), (EInt (Zpos XH)))),
         (seq ((SCmpArr (('i'::('x'::[])), Lt0,
           ('d'::('a'::('t'::('a'::('_'::('a'::('r'::('r'::('a'::('y'::[])))))))))),
           (EVar ('t'::('h'::('r'::[])))))) :: [])),
-        (seq ((SIf ((ECmp (Eq0, (EVar
+        (seq ((SIf ((S (S O)), (ECmp (Eq0, (EVar
           ('m'::('e'::('t'::('h'::('o'::('d'::[]))))))), (EInt (Zpos (XO
           XH))))),
           (seq ((SCmpArr (('i'::('x'::[])), Ge,
             ('d'::('a'::('t'::('a'::('_'::('a'::('r'::('r'::('a'::('y'::[])))))))))),
             (EVar ('t'::('h'::('r'::[])))))) :: [])),
-          (seq ((SIf ((ECmp (Eq0, (EVar
+          (seq ((SIf ((S (S (S O))), (ECmp (Eq0, (EVar
             ('m'::('e'::('t'::('h'::('o'::('d'::[]))))))), (EInt (Zpos (XI
             XH))))),
             (seq ((SCmpArr (('i'::('x'::[])), Le,
@@ -2269,16 +2280,17 @@ let k_jitthreshold =
       (('n'::('e'::('w'::('_'::('s'::('t'::('a'::('r'::('t'::[]))))))))),
       DFlt, (EVar ('n'::[])), (EInt Z0))) :: ((SNew1
       (('n'::('e'::('w'::('_'::('e'::('n'::('d'::[]))))))), DFlt, (EVar
-      ('n'::[])), (EInt Z0))) :: ((SFor (O, ('t'::[]), (EInt Z0), (EVar
-      ('n'::[])),
-      (seq ((SWhile ((S O), (EAnd ((ECmp (Lt0, (EVar ('k'::[])), (EBin (Sub,
-        (EVar ('m'::[])), (EInt (Zpos XH)))))), (ECmp (Gt0, (ERead1 (O,
+      ('n'::[])), (EInt Z0))) :: ((SFor ((S (S (S (S O)))), ('t'::[]), (EInt
+      Z0), (EVar ('n'::[])),
+      (seq ((SWhile ((S (S (S (S (S O))))), (EAnd ((ECmp (Lt0, (EVar
+        ('k'::[])), (EBin (Sub, (EVar ('m'::[])), (EInt (Zpos XH)))))), (ECmp
+        (Gt0, (ERead1 (O,
         ('t'::('i'::('m'::('e'::('_'::('a'::('r'::('r'::('a'::('y'::[])))))))))),
         (EVar ('t'::[])))), (ERead1 ((S O), ('e'::('n'::('d'::('s'::[])))),
         (EVar ('k'::[])))))))),
         (seq ((SAssign (('k'::[]), (EBin (Add, (EVar ('k'::[])), (EInt (Zpos
-          XH)))))) :: [])))) :: ((SIf ((ERead1 ((S (S O)), ('i'::('x'::[])),
-        (EVar ('t'::[])))),
+          XH)))))) :: [])))) :: ((SIf ((S (S (S (S (S (S O)))))), (ERead1 ((S
+        (S O)), ('i'::('x'::[])), (EVar ('t'::[])))),
         (seq ((SAssign (('f'::('i'::('r'::('s'::('t'::[]))))), (EOr ((ECmp
           (Eq0, (EVar ('t'::[])), (EInt Z0))), (ECmp (Lt0, (ERead1 ((S (S (S
           O))),
@@ -2291,14 +2303,14 @@ let k_jitthreshold =
           ('t'::('i'::('m'::('e'::('_'::('a'::('r'::('r'::('a'::('y'::[])))))))))),
           (EBin (Add, (EVar ('t'::[])), (EInt (Zpos XH)))))), (ERead1 ((S (S
           (S (S (S (S O)))))), ('e'::('n'::('d'::('s'::[])))), (EVar
-          ('k'::[])))))))))) :: ((SIf ((EOr ((EVar
-          ('f'::('i'::('r'::('s'::('t'::[])))))), (ENot (ERead1 ((S (S (S (S
-          (S (S (S O))))))), ('i'::('x'::[])), (EBin (Sub, (EVar ('t'::[])),
-          (EInt (Zpos XH))))))))),
+          ('k'::[])))))))))) :: ((SIf ((S (S (S (S (S (S (S O))))))), (EOr
+          ((EVar ('f'::('i'::('r'::('s'::('t'::[])))))), (ENot (ERead1 ((S (S
+          (S (S (S (S (S O))))))), ('i'::('x'::[])), (EBin (Sub, (EVar
+          ('t'::[])), (EInt (Zpos XH))))))))),
           (seq ((SStore1 ((S (S (S (S (S (S (S (S O)))))))),
             ('i'::('x'::('_'::('s'::('t'::('a'::('r'::('t'::[])))))))), (EVar
-            ('t'::[])), (EBool true))) :: ((SIf ((ENot (EVar
-            ('f'::('i'::('r'::('s'::('t'::[]))))))),
+            ('t'::[])), (EBool true))) :: ((SIf ((S (S (S (S (S (S (S (S
+            O)))))))), (ENot (EVar ('f'::('i'::('r'::('s'::('t'::[]))))))),
             (seq ((SStore1 ((S (S (S (S (S (S (S (S (S (S (S (S
               O)))))))))))),
               ('n'::('e'::('w'::('_'::('s'::('t'::('a'::('r'::('t'::[]))))))))),
@@ -2313,7 +2325,8 @@ let k_jitthreshold =
               ('t'::('i'::('m'::('e'::('_'::('a'::('r'::('r'::('a'::('y'::[])))))))))),
               (EBin (Sub, (EVar ('t'::[])), (EInt (Zpos XH)))))))), (EInt
               (Zpos (XO XH))))))))) :: [])),
-            (seq ((SIf ((EVar ('l'::('a'::('s'::('t'::[]))))),
+            (seq ((SIf ((S (S (S (S (S (S (S (S (S O))))))))), (EVar
+              ('l'::('a'::('s'::('t'::[]))))),
               (seq ((SStore1 ((S (S (S (S (S (S (S (S (S (S (S (S (S (S
                 O)))))))))))))),
                 ('n'::('e'::('w'::('_'::('s'::('t'::('a'::('r'::('t'::[]))))))))),
@@ -2328,15 +2341,16 @@ let k_jitthreshold =
                 (S (S (S (S O))))))))))))))),
                 ('t'::('i'::('m'::('e'::('_'::('a'::('r'::('r'::('a'::('y'::[])))))))))),
                 (EVar ('t'::[])))))) :: [])))) :: [])))) :: []))),
-          SSkip)) :: ((SIf ((EOr ((EVar ('l'::('a'::('s'::('t'::[]))))),
-          (ENot (ERead1 ((S (S (S (S (S (S (S (S (S (S (S (S (S (S (S (S (S
-          O))))))))))))))))), ('i'::('x'::[])), (EBin (Add, (EVar ('t'::[])),
-          (EInt (Zpos XH))))))))),
+          SSkip)) :: ((SIf ((S (S (S (S (S (S (S (S (S (S O)))))))))), (EOr
+          ((EVar ('l'::('a'::('s'::('t'::[]))))), (ENot (ERead1 ((S (S (S (S
+          (S (S (S (S (S (S (S (S (S (S (S (S (S O))))))))))))))))),
+          ('i'::('x'::[])), (EBin (Add, (EVar ('t'::[])), (EInt (Zpos
+          XH))))))))),
           (seq ((SStore1 ((S (S (S (S (S (S (S (S (S (S (S (S (S (S (S (S (S
             (S O)))))))))))))))))),
             ('i'::('x'::('_'::('e'::('n'::('d'::[])))))), (EVar ('t'::[])),
-            (EBool true))) :: ((SIf ((ENot (EVar
-            ('l'::('a'::('s'::('t'::[])))))),
+            (EBool true))) :: ((SIf ((S (S (S (S (S (S (S (S (S (S (S
+            O))))))))))), (ENot (EVar ('l'::('a'::('s'::('t'::[])))))),
             (seq ((SStore1 ((S (S (S (S (S (S (S (S (S (S (S (S (S (S (S (S
               (S (S (S (S (S (S O)))))))))))))))))))))),
               ('n'::('e'::('w'::('_'::('e'::('n'::('d'::[]))))))), (EVar
@@ -2352,7 +2366,8 @@ let k_jitthreshold =
               O))))))))))))))))))))),
               ('t'::('i'::('m'::('e'::('_'::('a'::('r'::('r'::('a'::('y'::[])))))))))),
               (EVar ('t'::[])))))), (EInt (Zpos (XO XH))))))))) :: [])),
-            (seq ((SIf ((EVar ('f'::('i'::('r'::('s'::('t'::[])))))),
+            (seq ((SIf ((S (S (S (S (S (S (S (S (S (S (S (S O)))))))))))),
+              (EVar ('f'::('i'::('r'::('s'::('t'::[])))))),
               (seq ((SStore1 ((S (S (S (S (S (S (S (S (S (S (S (S (S (S (S (S
                 (S (S (S (S (S (S (S (S O)))))))))))))))))))))))),
                 ('n'::('e'::('w'::('_'::('e'::('n'::('d'::[]))))))), (EVar
@@ -2408,7 +2423,7 @@ let k__jitbin_array =
       (('n'::('b'::('_'::('b'::('i'::('n'::('s'::[]))))))), DInt, (EVar
       ('m'::[])), (EInt Z0))) :: ((SFor (O, ('k'::[]), (EInt Z0), (EVar
       ('m'::[])),
-      (seq ((SIf ((ECmp (Gt0, (EBin (Sub, (ERead1 (O,
+      (seq ((SIf ((S O), (ECmp (Gt0, (EBin (Sub, (ERead1 (O,
         ('e'::('n'::('d'::('s'::[])))), (EVar ('k'::[])))), (ERead1 ((S O),
         ('s'::('t'::('a'::('r'::('t'::('s'::[])))))), (EVar ('k'::[])))))),
         (EVar ('b'::('i'::('n'::('_'::('s'::('i'::('z'::('e'::[]))))))))))),
@@ -2433,7 +2448,7 @@ let k__jitbin_array =
       (('a'::('v'::('e'::('r'::('a'::('g'::('e'::[]))))))), DFlt, (EVar
       ('n'::('b'::[]))), (EInt Z0))) :: ((SAssign (('k'::[]), (EInt
       Z0))) :: ((SAssign (('t'::[]), (EInt Z0))) :: ((SAssign (('b'::[]),
-      (EInt Z0))) :: ((SWhile ((S O), (ECmp (Lt0, (EVar ('k'::[])), (EVar
+      (EInt Z0))) :: ((SWhile ((S (S O)), (ECmp (Lt0, (EVar ('k'::[])), (EVar
       ('m'::[])))),
       (seq ((SAssign (('m'::('a'::('x'::('b'::[])))), (EBin (Add, (EVar
         ('b'::[])), (ERead1 ((S (S (S (S (S (S O)))))),
@@ -2444,14 +2459,15 @@ let k__jitbin_array =
         ('k'::[])))))))) :: ((SAssign
         (('l'::('b'::('o'::('u'::('n'::('d'::[])))))), (ERead1 ((S (S (S (S
         (S (S (S (S O)))))))), ('s'::('t'::('a'::('r'::('t'::('s'::[])))))),
-        (EVar ('k'::[])))))) :: ((SWhile ((S (S O)), (ECmp (Lt0, (EVar
+        (EVar ('k'::[])))))) :: ((SWhile ((S (S (S O))), (ECmp (Lt0, (EVar
         ('b'::[])), (EVar ('m'::('a'::('x'::('b'::[]))))))),
-        (seq ((SAssign (('x'::('p'::('o'::('s'::[])))), (EBin (Add, (EVar
-          ('l'::('b'::('o'::('u'::('n'::('d'::[]))))))), (EBin (Div, (EVar
+        (seq ((SAssign (('x'::('p'::('o'::('s'::[])))), (EUn (Round9, (EBin
+          (Add, (EVar ('l'::('b'::('o'::('u'::('n'::('d'::[]))))))), (EBin
+          (Div, (EVar
           ('b'::('i'::('n'::('_'::('s'::('i'::('z'::('e'::[]))))))))), (EInt
-          (Zpos (XO XH))))))))) :: ((SIf ((ECmp (Gt0, (EVar
-          ('x'::('p'::('o'::('s'::[]))))), (ERead1 ((S (S (S (S (S (S (S (S
-          (S O))))))))), ('e'::('n'::('d'::('s'::[])))), (EVar
+          (Zpos (XO XH))))))))))) :: ((SIf ((S (S (S (S O)))), (ECmp (Gt0,
+          (EVar ('x'::('p'::('o'::('s'::[]))))), (ERead1 ((S (S (S (S (S (S
+          (S (S (S O))))))))), ('e'::('n'::('d'::('s'::[])))), (EVar
           ('k'::[])))))), (seq (SBreak :: [])),
           (seq ((SStore1 ((S (S (S (S (S (S (S (S (S (S O)))))))))),
             ('b'::('i'::('n'::('s'::[])))), (EVar ('b'::[])), (EVar
@@ -2460,10 +2476,10 @@ let k__jitbin_array =
             (EBin (Add, (EVar ('l'::('b'::('o'::('u'::('n'::('d'::[]))))))),
             (EVar
             ('b'::('i'::('n'::('_'::('s'::('i'::('z'::('e'::[]))))))))))))))) :: ((SWhile
-            ((S (S (S O))), (ECmp (Lt0, (EVar ('t'::[])), (EVar
+            ((S (S (S (S (S O))))), (ECmp (Lt0, (EVar ('t'::[])), (EVar
             ('m'::('a'::('x'::('t'::[]))))))),
-            (seq ((SIf ((ECmp (Lt0, (ERead1 ((S (S (S (S (S (S (S (S (S (S (S
-              O))))))))))),
+            (seq ((SIf ((S (S (S (S (S (S O)))))), (ECmp (Lt0, (ERead1 ((S (S
+              (S (S (S (S (S (S (S (S (S O))))))))))),
               ('t'::('i'::('m'::('e'::('_'::('a'::('r'::('r'::('a'::('y'::[])))))))))),
               (EVar ('t'::[])))), (EVar
               ('r'::('b'::('o'::('u'::('n'::('d'::[]))))))))),
@@ -2530,13 +2546,14 @@ let k_jitintersect =
       XH))), (EInt Z0))) :: ((SAssign (('c'::('t'::[])), (EInt
       Z0))) :: ((SWhile (O, (ECmp (Lt0, (EVar ('i'::[])), (EVar ('m'::[])))),
       (seq ((SWhile ((S O), (ECmp (Lt0, (EVar ('j'::[])), (EVar ('n'::[])))),
-        (seq ((SIf ((ECmp (Gt0, (ERead1 (O, ('e'::('n'::('d'::('2'::[])))),
-          (EVar ('j'::[])))), (ERead1 ((S O),
+        (seq ((SIf ((S (S O)), (ECmp (Gt0, (ERead1 (O,
+          ('e'::('n'::('d'::('2'::[])))), (EVar ('j'::[])))), (ERead1 ((S O),
           ('s'::('t'::('a'::('r'::('t'::('1'::[])))))), (EVar ('i'::[])))))),
           (seq (SBreak :: [])), SSkip)) :: ((SAssign (('j'::[]), (EBin (Add,
-          (EVar ('j'::[])), (EInt (Zpos XH)))))) :: []))))) :: ((SIf ((ECmp
-        (Eq0, (EVar ('j'::[])), (EVar ('n'::[])))), (seq (SBreak :: [])),
-        SSkip)) :: ((SIf ((ECmp (Lt0, (ERead1 ((S (S O)),
+          (EVar ('j'::[])), (EInt (Zpos XH)))))) :: []))))) :: ((SIf ((S (S
+        (S O))), (ECmp (Eq0, (EVar ('j'::[])), (EVar ('n'::[])))),
+        (seq (SBreak :: [])), SSkip)) :: ((SIf ((S (S (S (S O)))), (ECmp
+        (Lt0, (ERead1 ((S (S O)),
         ('s'::('t'::('a'::('r'::('t'::('2'::[])))))), (EVar ('j'::[])))),
         (ERead1 ((S (S (S O))), ('e'::('n'::('d'::('1'::[])))), (EVar
         ('i'::[])))))),
@@ -2559,10 +2576,10 @@ let k_jitintersect =
           ('n'::('e'::('w'::('m'::('e'::('t'::('a'::[]))))))), (EVar
           ('c'::('t'::[]))), (EInt (Zpos XH)), (EVar
           ('j'::[])))) :: ((SAssign (('c'::('t'::[])), (EBin (Add, (EVar
-          ('c'::('t'::[]))), (EInt (Zpos XH)))))) :: ((SIf ((ECmp (Lt0,
-          (ERead1 ((S (S (S (S (S (S (S (S (S (S (S (S O)))))))))))),
-          ('e'::('n'::('d'::('2'::[])))), (EVar ('j'::[])))), (ERead1 ((S (S
-          (S (S (S (S (S (S (S (S (S (S (S O))))))))))))),
+          ('c'::('t'::[]))), (EInt (Zpos XH)))))) :: ((SIf ((S (S (S (S (S
+          O))))), (ECmp (Lt0, (ERead1 ((S (S (S (S (S (S (S (S (S (S (S (S
+          O)))))))))))), ('e'::('n'::('d'::('2'::[])))), (EVar ('j'::[])))),
+          (ERead1 ((S (S (S (S (S (S (S (S (S (S (S (S (S O))))))))))))),
           ('e'::('n'::('d'::('1'::[])))), (EVar ('i'::[])))))),
           (seq ((SAssign (('j'::[]), (EBin (Add, (EVar ('j'::[])), (EInt
             (Zpos XH)))))) :: [])),
@@ -2604,8 +2621,8 @@ let k_jitunion =
       Z0))) :: ((SAssign (('c'::('t'::[])), (EInt Z0))) :: ((SWhile (O, (ECmp
       (Lt0, (EVar ('i'::[])), (EVar ('m'::[])))),
       (seq ((SWhile ((S O), (ECmp (Lt0, (EVar ('j'::[])), (EVar ('n'::[])))),
-        (seq ((SIf ((ECmp (Gt0, (ERead1 (O, ('e'::('n'::('d'::('2'::[])))),
-          (EVar ('j'::[])))), (ERead1 ((S O),
+        (seq ((SIf ((S (S O)), (ECmp (Gt0, (ERead1 (O,
+          ('e'::('n'::('d'::('2'::[])))), (EVar ('j'::[])))), (ERead1 ((S O),
           ('s'::('t'::('a'::('r'::('t'::('1'::[])))))), (EVar ('i'::[])))))),
           (seq (SBreak :: [])), SSkip)) :: ((SStore1 ((S (S (S O))),
           ('n'::('e'::('w'::('s'::('t'::('a'::('r'::('t'::[])))))))), (EVar
@@ -2617,11 +2634,11 @@ let k_jitunion =
           ('e'::('n'::('d'::('2'::[])))), (EVar ('j'::[])))))) :: ((SAssign
           (('c'::('t'::[])), (EBin (Add, (EVar ('c'::('t'::[]))), (EInt (Zpos
           XH)))))) :: ((SAssign (('j'::[]), (EBin (Add, (EVar ('j'::[])),
-          (EInt (Zpos XH)))))) :: [])))))))) :: ((SIf ((ECmp (Eq0, (EVar
-        ('j'::[])), (EVar ('n'::[])))), (seq (SBreak :: [])),
-        SSkip)) :: ((SIf ((ECmp (Lt0, (ERead1 ((S (S (S (S (S (S O)))))),
-        ('s'::('t'::('a'::('r'::('t'::('2'::[])))))), (EVar ('j'::[])))),
-        (ERead1 ((S (S (S (S (S (S (S O))))))),
+          (EInt (Zpos XH)))))) :: [])))))))) :: ((SIf ((S (S (S O))), (ECmp
+        (Eq0, (EVar ('j'::[])), (EVar ('n'::[])))), (seq (SBreak :: [])),
+        SSkip)) :: ((SIf ((S (S (S (S O)))), (ECmp (Lt0, (ERead1 ((S (S (S (S
+        (S (S O)))))), ('s'::('t'::('a'::('r'::('t'::('2'::[])))))), (EVar
+        ('j'::[])))), (ERead1 ((S (S (S (S (S (S (S O))))))),
         ('e'::('n'::('d'::('1'::[])))), (EVar ('i'::[])))))),
         (seq ((SStore1 ((S (S (S (S (S (S (S (S (S (S O)))))))))),
           ('n'::('e'::('w'::('s'::('t'::('a'::('r'::('t'::[])))))))), (EVar
@@ -2629,49 +2646,51 @@ let k_jitunion =
           O)))))))), ('s'::('t'::('a'::('r'::('t'::('1'::[])))))), (EVar
           ('i'::[])))), (ERead1 ((S (S (S (S (S (S (S (S (S O))))))))),
           ('s'::('t'::('a'::('r'::('t'::('2'::[])))))), (EVar
-          ('j'::[])))))))) :: ((SWhile ((S (S O)), (EAnd ((ECmp (Lt0, (EVar
-          ('i'::[])), (EVar ('m'::[])))), (ECmp (Lt0, (EVar ('j'::[])), (EVar
-          ('n'::[])))))),
+          ('j'::[])))))))) :: ((SWhile ((S (S (S (S (S O))))), (EAnd ((ECmp
+          (Lt0, (EVar ('i'::[])), (EVar ('m'::[])))), (ECmp (Lt0, (EVar
+          ('j'::[])), (EVar ('n'::[])))))),
           (seq ((SStore1 ((S (S (S (S (S (S (S (S (S (S (S (S (S
             O))))))))))))), ('n'::('e'::('w'::('e'::('n'::('d'::[])))))),
             (EVar ('c'::('t'::[]))), (EBin (Max, (ERead1 ((S (S (S (S (S (S
             (S (S (S (S (S O))))))))))), ('e'::('n'::('d'::('1'::[])))),
             (EVar ('i'::[])))), (ERead1 ((S (S (S (S (S (S (S (S (S (S (S (S
             O)))))))))))), ('e'::('n'::('d'::('2'::[])))), (EVar
-            ('j'::[])))))))) :: ((SIf ((ECmp (Lt0, (ERead1 ((S (S (S (S (S (S
-            (S (S (S (S (S (S (S (S O)))))))))))))),
-            ('e'::('n'::('d'::('1'::[])))), (EVar ('i'::[])))), (ERead1 ((S
-            (S (S (S (S (S (S (S (S (S (S (S (S (S (S O))))))))))))))),
-            ('e'::('n'::('d'::('2'::[])))), (EVar ('j'::[])))))),
+            ('j'::[])))))))) :: ((SIf ((S (S (S (S (S (S O)))))), (ECmp (Lt0,
+            (ERead1 ((S (S (S (S (S (S (S (S (S (S (S (S (S (S
+            O)))))))))))))), ('e'::('n'::('d'::('1'::[])))), (EVar
+            ('i'::[])))), (ERead1 ((S (S (S (S (S (S (S (S (S (S (S (S (S (S
+            (S O))))))))))))))), ('e'::('n'::('d'::('2'::[])))), (EVar
+            ('j'::[])))))),
             (seq ((SAssign (('i'::[]), (EBin (Add, (EVar ('i'::[])), (EInt
               (Zpos XH)))))) :: [])),
             (seq ((SAssign (('j'::[]), (EBin (Add, (EVar ('j'::[])), (EInt
-              (Zpos XH)))))) :: [])))) :: ((SIf ((ECmp (Eq0, (EVar
-            ('i'::[])), (EVar ('m'::[])))),
+              (Zpos XH)))))) :: [])))) :: ((SIf ((S (S (S (S (S (S (S
+            O))))))), (ECmp (Eq0, (EVar ('i'::[])), (EVar ('m'::[])))),
             (seq ((SAssign (('j'::[]), (EBin (Add, (EVar ('j'::[])), (EInt
               (Zpos XH)))))) :: ((SAssign (('c'::('t'::[])), (EBin (Add,
               (EVar ('c'::('t'::[]))), (EInt (Zpos
-              XH)))))) :: (SBreak :: [])))), SSkip)) :: ((SIf ((ECmp (Eq0,
-            (EVar ('j'::[])), (EVar ('n'::[])))),
+              XH)))))) :: (SBreak :: [])))), SSkip)) :: ((SIf ((S (S (S (S (S
+            (S (S (S O)))))))), (ECmp (Eq0, (EVar ('j'::[])), (EVar
+            ('n'::[])))),
             (seq ((SAssign (('i'::[]), (EBin (Add, (EVar ('i'::[])), (EInt
               (Zpos XH)))))) :: ((SAssign (('c'::('t'::[])), (EBin (Add,
               (EVar ('c'::('t'::[]))), (EInt (Zpos
-              XH)))))) :: (SBreak :: [])))), SSkip)) :: ((SIf ((ECmp (Lt0,
-            (ERead1 ((S (S (S (S (S (S (S (S (S (S (S (S (S (S (S (S
-            O)))))))))))))))), ('e'::('n'::('d'::('2'::[])))), (EVar
-            ('j'::[])))), (ERead1 ((S (S (S (S (S (S (S (S (S (S (S (S (S (S
-            (S (S (S O))))))))))))))))),
-            ('s'::('t'::('a'::('r'::('t'::('1'::[])))))), (EVar
-            ('i'::[])))))),
+              XH)))))) :: (SBreak :: [])))), SSkip)) :: ((SIf ((S (S (S (S (S
+            (S (S (S (S O))))))))), (ECmp (Lt0, (ERead1 ((S (S (S (S (S (S (S
+            (S (S (S (S (S (S (S (S (S O)))))))))))))))),
+            ('e'::('n'::('d'::('2'::[])))), (EVar ('j'::[])))), (ERead1 ((S
+            (S (S (S (S (S (S (S (S (S (S (S (S (S (S (S (S
+            O))))))))))))))))), ('s'::('t'::('a'::('r'::('t'::('1'::[])))))),
+            (EVar ('i'::[])))))),
             (seq ((SAssign (('j'::[]), (EBin (Add, (EVar ('j'::[])), (EInt
               (Zpos XH)))))) :: ((SAssign (('c'::('t'::[])), (EBin (Add,
               (EVar ('c'::('t'::[]))), (EInt (Zpos
               XH)))))) :: (SBreak :: [])))),
-            (seq ((SIf ((ECmp (Lt0, (ERead1 ((S (S (S (S (S (S (S (S (S (S (S
-              (S (S (S (S (S (S (S O)))))))))))))))))),
-              ('e'::('n'::('d'::('1'::[])))), (EVar ('i'::[])))), (ERead1 ((S
-              (S (S (S (S (S (S (S (S (S (S (S (S (S (S (S (S (S (S
-              O))))))))))))))))))),
+            (seq ((SIf ((S (S (S (S (S (S (S (S (S (S O)))))))))), (ECmp
+              (Lt0, (ERead1 ((S (S (S (S (S (S (S (S (S (S (S (S (S (S (S (S
+              (S (S O)))))))))))))))))), ('e'::('n'::('d'::('1'::[])))),
+              (EVar ('i'::[])))), (ERead1 ((S (S (S (S (S (S (S (S (S (S (S
+              (S (S (S (S (S (S (S (S O))))))))))))))))))),
               ('s'::('t'::('a'::('r'::('t'::('2'::[])))))), (EVar
               ('j'::[])))))),
               (seq ((SAssign (('i'::[]), (EBin (Add, (EVar ('i'::[])), (EInt
@@ -2693,7 +2712,8 @@ let k_jitunion =
           (('c'::('t'::[])), (EBin (Add, (EVar ('c'::('t'::[]))), (EInt (Zpos
           XH)))))) :: ((SAssign (('i'::[]), (EBin (Add, (EVar ('i'::[])),
           (EInt (Zpos XH)))))) :: []))))))) :: [])))))) :: ((SWhile ((S (S (S
-      O))), (ECmp (Lt0, (EVar ('i'::[])), (EVar ('m'::[])))),
+      (S (S (S (S (S (S (S (S O))))))))))), (ECmp (Lt0, (EVar ('i'::[])),
+      (EVar ('m'::[])))),
       (seq ((SStore1 ((S (S (S (S (S (S (S (S (S (S (S (S (S (S (S (S (S (S
         (S (S (S (S (S (S (S O))))))))))))))))))))))))),
         ('n'::('e'::('w'::('s'::('t'::('a'::('r'::('t'::[])))))))), (EVar
@@ -2709,8 +2729,9 @@ let k_jitunion =
         ('e'::('n'::('d'::('1'::[])))), (EVar ('i'::[])))))) :: ((SAssign
         (('c'::('t'::[])), (EBin (Add, (EVar ('c'::('t'::[]))), (EInt (Zpos
         XH)))))) :: ((SAssign (('i'::[]), (EBin (Add, (EVar ('i'::[])), (EInt
-        (Zpos XH)))))) :: []))))))) :: ((SWhile ((S (S (S (S O)))), (ECmp
-      (Lt0, (EVar ('j'::[])), (EVar ('n'::[])))),
+        (Zpos XH)))))) :: []))))))) :: ((SWhile ((S (S (S (S (S (S (S (S (S
+      (S (S (S O)))))))))))), (ECmp (Lt0, (EVar ('j'::[])), (EVar
+      ('n'::[])))),
       (seq ((SStore1 ((S (S (S (S (S (S (S (S (S (S (S (S (S (S (S (S (S (S
         (S (S (S (S (S (S (S (S (S (S (S O))))))))))))))))))))))))))))),
         ('n'::('e'::('w'::('s'::('t'::('a'::('r'::('t'::[])))))))), (EVar
@@ -2760,19 +2781,20 @@ let k_jitdiff =
       Z0))) :: ((SAssign (('c'::('t'::[])), (EInt Z0))) :: ((SWhile (O, (ECmp
       (Lt0, (EVar ('i'::[])), (EVar ('m'::[])))),
       (seq ((SWhile ((S O), (ECmp (Lt0, (EVar ('j'::[])), (EVar ('n'::[])))),
-        (seq ((SIf ((ECmp (Gt0, (ERead1 (O, ('e'::('n'::('d'::('2'::[])))),
-          (EVar ('j'::[])))), (ERead1 ((S O),
+        (seq ((SIf ((S (S O)), (ECmp (Gt0, (ERead1 (O,
+          ('e'::('n'::('d'::('2'::[])))), (EVar ('j'::[])))), (ERead1 ((S O),
           ('s'::('t'::('a'::('r'::('t'::('1'::[])))))), (EVar ('i'::[])))))),
           (seq (SBreak :: [])), SSkip)) :: ((SAssign (('j'::[]), (EBin (Add,
-          (EVar ('j'::[])), (EInt (Zpos XH)))))) :: []))))) :: ((SIf ((ECmp
-        (Eq0, (EVar ('j'::[])), (EVar ('n'::[])))), (seq (SBreak :: [])),
-        SSkip)) :: ((SIf ((ECmp (Lt0, (ERead1 ((S (S O)),
+          (EVar ('j'::[])), (EInt (Zpos XH)))))) :: []))))) :: ((SIf ((S (S
+        (S O))), (ECmp (Eq0, (EVar ('j'::[])), (EVar ('n'::[])))),
+        (seq (SBreak :: [])), SSkip)) :: ((SIf ((S (S (S (S O)))), (ECmp
+        (Lt0, (ERead1 ((S (S O)),
         ('s'::('t'::('a'::('r'::('t'::('2'::[])))))), (EVar ('j'::[])))),
         (ERead1 ((S (S (S O))), ('e'::('n'::('d'::('1'::[])))), (EVar
         ('i'::[])))))),
-        (seq ((SIf ((EAnd ((ECmp (Lt0, (ERead1 ((S (S (S (S O)))),
-          ('s'::('t'::('a'::('r'::('t'::('2'::[])))))), (EVar ('j'::[])))),
-          (ERead1 ((S (S (S (S (S O))))),
+        (seq ((SIf ((S (S (S (S (S O))))), (EAnd ((ECmp (Lt0, (ERead1 ((S (S
+          (S (S O)))), ('s'::('t'::('a'::('r'::('t'::('2'::[])))))), (EVar
+          ('j'::[])))), (ERead1 ((S (S (S (S (S O))))),
           ('s'::('t'::('a'::('r'::('t'::('1'::[])))))), (EVar ('i'::[])))))),
           (ECmp (Lt0, (ERead1 ((S (S (S (S (S (S O)))))),
           ('e'::('n'::('d'::('1'::[])))), (EVar ('i'::[])))), (ERead1 ((S (S
@@ -2780,7 +2802,8 @@ let k_jitdiff =
           ('j'::[])))))))),
           (seq ((SAssign (('i'::[]), (EBin (Add, (EVar ('i'::[])), (EInt
             (Zpos XH)))))) :: [])),
-          (seq ((SIf ((ECmp (Gt0, (ERead1 ((S (S (S (S (S (S (S (S O)))))))),
+          (seq ((SIf ((S (S (S (S (S (S O)))))), (ECmp (Gt0, (ERead1 ((S (S
+            (S (S (S (S (S (S O)))))))),
             ('s'::('t'::('a'::('r'::('t'::('2'::[])))))), (EVar ('j'::[])))),
             (ERead1 ((S (S (S (S (S (S (S (S (S O))))))))),
             ('s'::('t'::('a'::('r'::('t'::('1'::[])))))), (EVar
@@ -2818,9 +2841,11 @@ let k_jitdiff =
               ('n'::('e'::('w'::('m'::('e'::('t'::('a'::[]))))))), (EVar
               ('c'::('t'::[]))), (EVar ('i'::[])))) :: ((SAssign (('j'::[]),
               (EBin (Add, (EVar ('j'::[])), (EInt (Zpos XH)))))) :: []))))))) :: ((SWhile
-            ((S (S O)), (ECmp (Lt0, (EVar ('j'::[])), (EVar ('n'::[])))),
-            (seq ((SIf ((ECmp (Lt0, (ERead1 ((S (S (S (S (S (S (S (S (S (S (S
-              (S (S (S (S (S (S (S (S (S O)))))))))))))))))))),
+            ((S (S (S (S (S (S (S O))))))), (ECmp (Lt0, (EVar ('j'::[])),
+            (EVar ('n'::[])))),
+            (seq ((SIf ((S (S (S (S (S (S (S (S O)))))))), (ECmp (Lt0,
+              (ERead1 ((S (S (S (S (S (S (S (S (S (S (S (S (S (S (S (S (S (S
+              (S (S O)))))))))))))))))))),
               ('s'::('t'::('a'::('r'::('t'::('2'::[])))))), (EVar
               ('j'::[])))), (ERead1 ((S (S (S (S (S (S (S (S (S (S (S (S (S
               (S (S (S (S (S (S (S (S O))))))))))))))))))))),
@@ -2848,14 +2873,14 @@ let k_jitdiff =
                 (('c'::('t'::[])), (EBin (Add, (EVar ('c'::('t'::[]))), (EInt
                 (Zpos XH)))))) :: ((SAssign (('j'::[]), (EBin (Add, (EVar
                 ('j'::[])), (EInt (Zpos XH)))))) :: [])))))),
-              (seq (SBreak :: [])))) :: [])))) :: ((SIf ((ECmp (Lt0, (ERead1
-            ((S (S (S (S (S (S (S (S (S (S (S (S (S (S (S (S (S (S (S (S (S
-            (S (S (S (S (S (S O))))))))))))))))))))))))))),
-            ('e'::('n'::('d'::('2'::[])))), (EBin (Sub, (EVar ('j'::[])),
-            (EInt (Zpos XH)))))), (ERead1 ((S (S (S (S (S (S (S (S (S (S (S
-            (S (S (S (S (S (S (S (S (S (S (S (S (S (S (S (S (S
-            O)))))))))))))))))))))))))))), ('e'::('n'::('d'::('1'::[])))),
-            (EVar ('i'::[])))))),
+              (seq (SBreak :: [])))) :: [])))) :: ((SIf ((S (S (S (S (S (S (S
+            (S (S O))))))))), (ECmp (Lt0, (ERead1 ((S (S (S (S (S (S (S (S (S
+            (S (S (S (S (S (S (S (S (S (S (S (S (S (S (S (S (S (S
+            O))))))))))))))))))))))))))), ('e'::('n'::('d'::('2'::[])))),
+            (EBin (Sub, (EVar ('j'::[])), (EInt (Zpos XH)))))), (ERead1 ((S
+            (S (S (S (S (S (S (S (S (S (S (S (S (S (S (S (S (S (S (S (S (S (S
+            (S (S (S (S (S O)))))))))))))))))))))))))))),
+            ('e'::('n'::('d'::('1'::[])))), (EVar ('i'::[])))))),
             (seq ((SStore1 ((S (S (S (S (S (S (S (S (S (S (S (S (S (S (S (S
               (S (S (S (S (S (S (S (S (S (S (S (S (S (S
               O)))))))))))))))))))))))))))))),
@@ -2906,7 +2931,8 @@ let k_jitdiff =
           (('c'::('t'::[])), (EBin (Add, (EVar ('c'::('t'::[]))), (EInt (Zpos
           XH)))))) :: ((SAssign (('i'::[]), (EBin (Add, (EVar ('i'::[])),
           (EInt (Zpos XH)))))) :: [])))))))) :: [])))))) :: ((SWhile ((S (S
-      (S O))), (ECmp (Lt0, (EVar ('i'::[])), (EVar ('m'::[])))),
+      (S (S (S (S (S (S (S (S O)))))))))), (ECmp (Lt0, (EVar ('i'::[])),
+      (EVar ('m'::[])))),
       (seq ((SStore1 ((S (S (S (S (S (S (S (S (S (S (S (S (S (S (S (S (S (S
         (S (S (S (S (S (S (S (S (S (S (S (S (S (S (S (S (S (S (S (S (S (S
         O)))))))))))))))))))))))))))))))))))))))),
@@ -2965,8 +2991,8 @@ let k_jitunion_isets =
       (('n'::('e'::('w'::('_'::('s'::('t'::('a'::('r'::('t'::[]))))))))),
       DFlt, (EVar ('n'::[])), (EInt Z0))) :: ((SNew1
       (('n'::('e'::('w'::('_'::('e'::('n'::('d'::[]))))))), DFlt, (EVar
-      ('n'::[])), (EInt Z0))) :: ((SIf ((ECmp (Eq0, (EVar ('n'::[])), (EInt
-      Z0))),
+      ('n'::[])), (EInt Z0))) :: ((SIf (O, (ECmp (Eq0, (EVar ('n'::[])),
+      (EInt Z0))),
       (seq ((SReturn ((AVar
         ('n'::('e'::('w'::('_'::('s'::('t'::('a'::('r'::('t'::[])))))))))) :: ((AVar
         ('n'::('e'::('w'::('_'::('e'::('n'::('d'::[])))))))) :: []))) :: [])),
@@ -2977,9 +3003,9 @@ let k_jitunion_isets =
       ('s'::('t'::('a'::('r'::('t'::('s'::[])))))), (EInt
       Z0))))) :: ((SAssign (('e'::[]), (ERead1 ((S (S (S (S O)))),
       ('e'::('n'::('d'::('s'::[])))), (EInt Z0))))) :: ((SAssign (('i'::[]),
-      (EInt (Zpos XH)))) :: ((SWhile (O, (ECmp (Lt0, (EVar ('i'::[])), (EVar
-      ('n'::[])))),
-      (seq ((SIf ((ECmp (Gt0, (ERead1 ((S (S (S (S (S O))))),
+      (EInt (Zpos XH)))) :: ((SWhile ((S O), (ECmp (Lt0, (EVar ('i'::[])),
+      (EVar ('n'::[])))),
+      (seq ((SIf ((S (S O)), (ECmp (Gt0, (ERead1 ((S (S (S (S (S O))))),
         ('s'::('t'::('a'::('r'::('t'::('s'::[])))))), (EVar ('i'::[])))),
         (EVar ('e'::[])))),
         (seq ((SStore1 ((S (S (S (S (S (S O)))))),
@@ -3035,17 +3061,17 @@ let k__jitfix_iset =
         (('n'::('e'::('w'::('e'::('n'::('d'::[])))))), (ERead1 ((S O),
         ('e'::('n'::('d'::[]))), (EVar ('i'::[])))))) :: ((SWhile ((S O),
         (ECmp (Lt0, (EVar ('i'::[])), (EVar ('m'::[])))),
-        (seq ((SIf ((ECmp (Eq0, (ERead1 ((S (S O)), ('e'::('n'::('d'::[]))),
-          (EVar ('i'::[])))), (ERead1 ((S (S (S O))),
-          ('s'::('t'::('a'::('r'::('t'::[]))))), (EVar ('i'::[])))))),
+        (seq ((SIf ((S (S O)), (ECmp (Eq0, (ERead1 ((S (S O)),
+          ('e'::('n'::('d'::[]))), (EVar ('i'::[])))), (ERead1 ((S (S (S
+          O))), ('s'::('t'::('a'::('r'::('t'::[]))))), (EVar ('i'::[])))))),
           (seq ((SStore1 ((S (S (S (S O)))),
             ('t'::('o'::('_'::('w'::('a'::('r'::('n'::[]))))))), (EInt (Zpos
             (XI XH))), (EBool true))) :: ((SAssign (('i'::[]), (EBin (Add,
             (EVar ('i'::[])), (EInt (Zpos XH)))))) :: []))),
-          (seq ((SIf ((ECmp (Lt0, (ERead1 ((S (S (S (S (S O))))),
-            ('e'::('n'::('d'::[]))), (EVar ('i'::[])))), (ERead1 ((S (S (S (S
-            (S (S O)))))), ('s'::('t'::('a'::('r'::('t'::[]))))), (EVar
-            ('i'::[])))))),
+          (seq ((SIf ((S (S (S O))), (ECmp (Lt0, (ERead1 ((S (S (S (S (S
+            O))))), ('e'::('n'::('d'::[]))), (EVar ('i'::[])))), (ERead1 ((S
+            (S (S (S (S (S O)))))), ('s'::('t'::('a'::('r'::('t'::[]))))),
+            (EVar ('i'::[])))))),
             (seq ((SStore1 ((S (S (S (S (S (S (S O))))))),
               ('t'::('o'::('_'::('w'::('a'::('r'::('n'::[]))))))), (EInt
               (Zpos XH)), (EBool true))) :: ((SAssign (('i'::[]), (EBin (Add,
@@ -3058,13 +3084,15 @@ let k__jitfix_iset =
               (('n'::('e'::('w'::('e'::('n'::('d'::[])))))), (ERead1 ((S (S
               (S (S (S (S (S (S (S O))))))))), ('e'::('n'::('d'::[]))), (EVar
               ('i'::[])))))) :: (SBreak :: [])))))) :: [])))) :: [])))) :: ((SIf
-        ((ECmp (Ge, (EVar ('i'::[])), (EVar ('m'::[])))),
-        (seq (SBreak :: [])), SSkip)) :: ((SWhile ((S (S O)), (ECmp (Lt0,
-        (EVar ('i'::[])), (EBin (Sub, (EVar ('m'::[])), (EInt (Zpos XH)))))),
-        (seq ((SIf ((ECmp (Lt0, (ERead1 ((S (S (S (S (S (S (S (S (S (S
-          O)))))))))), ('s'::('t'::('a'::('r'::('t'::[]))))), (EBin (Add,
-          (EVar ('i'::[])), (EInt (Zpos XH)))))), (ERead1 ((S (S (S (S (S (S
-          (S (S (S (S (S O))))))))))), ('e'::('n'::('d'::[]))), (EVar
+        ((S (S (S (S O)))), (ECmp (Ge, (EVar ('i'::[])), (EVar ('m'::[])))),
+        (seq (SBreak :: [])), SSkip)) :: ((SWhile ((S (S (S (S (S O))))),
+        (ECmp (Lt0, (EVar ('i'::[])), (EBin (Sub, (EVar ('m'::[])), (EInt
+        (Zpos XH)))))),
+        (seq ((SIf ((S (S (S (S (S (S O)))))), (ECmp (Lt0, (ERead1 ((S (S (S
+          (S (S (S (S (S (S (S O)))))))))),
+          ('s'::('t'::('a'::('r'::('t'::[]))))), (EBin (Add, (EVar
+          ('i'::[])), (EInt (Zpos XH)))))), (ERead1 ((S (S (S (S (S (S (S (S
+          (S (S (S O))))))))))), ('e'::('n'::('d'::[]))), (EVar
           ('i'::[])))))),
           (seq ((SStore1 ((S (S (S (S (S (S (S (S (S (S (S (S O)))))))))))),
             ('t'::('o'::('_'::('w'::('a'::('r'::('n'::[]))))))), (EInt (Zpos
@@ -3076,9 +3104,9 @@ let k__jitfix_iset =
             (Zpos XH)))))), (ERead1 ((S (S (S (S (S (S (S (S (S (S (S (S (S
             (S O)))))))))))))), ('e'::('n'::('d'::[]))), (EVar
             ('i'::[])))))))) :: [])))), (seq (SBreak :: [])))) :: [])))) :: ((SIf
-        ((ECmp (Lt0, (EVar ('i'::[])), (EBin (Sub, (EVar ('m'::[])), (EInt
-        (Zpos XH)))))),
-        (seq ((SIf ((ECmp (Eq0, (EVar
+        ((S (S (S (S (S (S (S O))))))), (ECmp (Lt0, (EVar ('i'::[])), (EBin
+        (Sub, (EVar ('m'::[])), (EInt (Zpos XH)))))),
+        (seq ((SIf ((S (S (S (S (S (S (S (S O)))))))), (ECmp (Eq0, (EVar
           ('n'::('e'::('w'::('e'::('n'::('d'::[]))))))), (ERead1 ((S (S (S (S
           (S (S (S (S (S (S (S (S (S (S (S O))))))))))))))),
           ('s'::('t'::('a'::('r'::('t'::[]))))), (EBin (Add, (EVar
@@ -3091,7 +3119,8 @@ let k__jitfix_iset =
             ('n'::('e'::('w'::('e'::('n'::('d'::[]))))))), (EFlt { qnum =
             (Zpos XH); qden = (XO (XO (XO (XO (XO (XO (XI (XO (XO (XI (XO (XO
             (XO (XO (XI (XO (XI (XI (XI XH))))))))))))))))))) }))))) :: []))),
-          SSkip)) :: [])), SSkip)) :: ((SIf ((ECmp (Gt0, (EVar
+          SSkip)) :: [])), SSkip)) :: ((SIf ((S (S (S (S (S (S (S (S (S
+        O))))))))), (ECmp (Gt0, (EVar
         ('n'::('e'::('w'::('e'::('n'::('d'::[]))))))), (EVar
         ('n'::('e'::('w'::('s'::('t'::('a'::('r'::('t'::[]))))))))))),
         (seq ((SStore2 ((S (S (S (S (S (S (S (S (S (S (S (S (S (S (S (S (S
@@ -3158,15 +3187,15 @@ let k__jitcontinuous_perievent =
       (Zpos (XO XH))), (EInt Z0))) :: ((SNew1
       (('s'::('t'::('a'::('r'::('t'::('_'::('w'::[]))))))), DInt, (EVar
       ('N'::('_'::('t'::('a'::('r'::('g'::('e'::('t'::[]))))))))), (EInt
-      Z0))) :: ((SIf ((EAnyColProdPos ((S (S (S (S O)))),
+      Z0))) :: ((SIf ((S (S O)), (EAnyColProdPos ((S (S (S (S O)))),
       ('c'::('o'::('u'::('n'::('t'::[]))))), Z0, (Zpos XH))),
-      (seq ((SFor ((S (S O)), ('k'::[]), (EInt Z0), (EVar
+      (seq ((SFor ((S (S (S O))), ('k'::[]), (EInt Z0), (EVar
         ('N'::('_'::('e'::('p'::('o'::('c'::('h'::('s'::[]))))))))),
-        (seq ((SIf ((EAnd ((ECmp (Gt0, (ERead2 ((S (S (S (S (S O))))),
-          ('c'::('o'::('u'::('n'::('t'::[]))))), (EVar ('k'::[])), (EInt
-          Z0))), (EInt Z0))), (ECmp (Gt0, (ERead2 ((S (S (S (S (S (S O)))))),
-          ('c'::('o'::('u'::('n'::('t'::[]))))), (EVar ('k'::[])), (EInt
-          (Zpos XH)))), (EInt Z0))))),
+        (seq ((SIf ((S (S (S (S O)))), (EAnd ((ECmp (Gt0, (ERead2 ((S (S (S
+          (S (S O))))), ('c'::('o'::('u'::('n'::('t'::[]))))), (EVar
+          ('k'::[])), (EInt Z0))), (EInt Z0))), (ECmp (Gt0, (ERead2 ((S (S (S
+          (S (S (S O)))))), ('c'::('o'::('u'::('n'::('t'::[]))))), (EVar
+          ('k'::[])), (EInt (Zpos XH)))), (EInt Z0))))),
           (seq ((SAssign (('t'::[]), (ESumCol ((S (S (S (S (S (S (S O))))))),
             ('c'::('o'::('u'::('n'::('t'::[]))))), (EInt Z0), (EVar
             ('k'::[])), Z0)))) :: ((SAssign (('i'::[]), (ESumCol ((S (S (S (S
@@ -3180,8 +3209,8 @@ let k__jitcontinuous_perievent =
             O)))))))))), ('c'::('o'::('u'::('n'::('t'::[]))))), (EVar
             ('k'::[])), (EInt (Zpos XH)))))))) :: ((SAssign
             (('s'::('t'::('a'::('r'::('t'::('_'::('t'::[]))))))), (EVar
-            ('t'::[])))) :: ((SWhile ((S (S (S O))), (ECmp (Lt0, (EVar
-            ('i'::[])), (EVar ('m'::('a'::('x'::('i'::[]))))))),
+            ('t'::[])))) :: ((SWhile ((S (S (S (S (S O))))), (ECmp (Lt0,
+            (EVar ('i'::[])), (EVar ('m'::('a'::('x'::('i'::[]))))))),
             (seq ((SAssign
               (('i'::('n'::('t'::('e'::('r'::('v'::('a'::('l'::[])))))))),
               (EUn (Abs, (EBin (Sub, (ERead1 ((S (S (S (S (S (S (S (S (S (S
@@ -3193,8 +3222,8 @@ let k__jitcontinuous_perievent =
               (EVar ('i'::[])))))))))) :: ((SAssign
               (('t'::('_'::('p'::('o'::('s'::[]))))), (EVar
               ('t'::[])))) :: ((SAssign (('t'::[]), (EBin (Add, (EVar
-              ('t'::[])), (EInt (Zpos XH)))))) :: ((SWhile ((S (S (S (S
-              O)))), (ECmp (Lt0, (EVar ('t'::[])), (EVar
+              ('t'::[])), (EInt (Zpos XH)))))) :: ((SWhile ((S (S (S (S (S (S
+              O)))))), (ECmp (Lt0, (EVar ('t'::[])), (EVar
               ('m'::('a'::('x'::('t'::[]))))))),
               (seq ((SAssign
                 (('n'::('e'::('w'::('_'::('i'::('n'::('t'::('e'::('r'::('v'::('a'::('l'::[])))))))))))),
@@ -3204,7 +3233,8 @@ let k__jitcontinuous_perievent =
                 (EVar ('t'::[])))), (ERead1 ((S (S (S (S (S (S (S (S (S (S (S
                 (S (S (S O)))))))))))))),
                 ('t'::('i'::('m'::('e'::('_'::('t'::('a'::('r'::('g'::('e'::('t'::('_'::('a'::('r'::('r'::('a'::('y'::[]))))))))))))))))),
-                (EVar ('i'::[])))))))))) :: ((SIf ((ECmp (Gt0, (EVar
+                (EVar ('i'::[])))))))))) :: ((SIf ((S (S (S (S (S (S (S
+                O))))))), (ECmp (Gt0, (EVar
                 ('n'::('e'::('w'::('_'::('i'::('n'::('t'::('e'::('r'::('v'::('a'::('l'::[]))))))))))))),
                 (EVar
                 ('i'::('n'::('t'::('e'::('r'::('v'::('a'::('l'::[]))))))))))),
@@ -3271,12 +3301,12 @@ let k__cross_correlogram =
     (seq ((SAssign (('n'::('t'::('1'::[]))), (ELen
       ('t'::('1'::[]))))) :: ((SAssign (('n'::('t'::('2'::[]))), (ELen
       ('t'::('2'::[]))))) :: ((SAssign
-      (('n'::('b'::('i'::('n'::('s'::[]))))), (EUn (ToInt, (EBin (FloorDiv,
-      (EBin (Mul, (EVar
+      (('n'::('b'::('i'::('n'::('s'::[]))))), (EUn (ToInt, (EUn (Floor, (EUn
+      (Round9, (EBin (Div, (EBin (Mul, (EVar
       ('w'::('i'::('n'::('d'::('o'::('w'::('s'::('i'::('z'::('e'::[]))))))))))),
       (EInt (Zpos (XO XH))))), (EVar
-      ('b'::('i'::('n'::('s'::('i'::('z'::('e'::[])))))))))))))) :: ((SIf
-      ((ECmp (Eq0, (EBin (Mul, (EUn (Floor, (EBin (Div, (EVar
+      ('b'::('i'::('n'::('s'::('i'::('z'::('e'::[])))))))))))))))))) :: ((SIf
+      (O, (ECmp (Eq0, (EBin (Mul, (EUn (Floor, (EBin (Div, (EVar
       ('n'::('b'::('i'::('n'::('s'::[])))))), (EInt (Zpos (XO XH))))))),
       (EInt (Zpos (XO XH))))), (EVar
       ('n'::('b'::('i'::('n'::('s'::[])))))))),
@@ -3287,17 +3317,17 @@ let k__cross_correlogram =
       XH))))), (EVar
       ('b'::('i'::('n'::('s'::('i'::('z'::('e'::[])))))))))))) :: ((SNew1
       (('C'::[]), DFlt, (EVar ('n'::('b'::('i'::('n'::('s'::[])))))), (EInt
-      Z0))) :: ((SAssign (('i'::('2'::[])), (EInt Z0))) :: ((SFor (O,
+      Z0))) :: ((SAssign (('i'::('2'::[])), (EInt Z0))) :: ((SFor ((S O),
       ('i'::('1'::[])), (EInt Z0), (EVar ('n'::('t'::('1'::[])))),
       (seq ((SAssign (('l'::('b'::('o'::('u'::('n'::('d'::[])))))), (EBin
         (Sub, (ERead1 (O, ('t'::('1'::[])), (EVar ('i'::('1'::[]))))), (EVar
-        ('w'::[])))))) :: ((SWhile ((S O), (EAnd ((ECmp (Lt0, (EVar
+        ('w'::[])))))) :: ((SWhile ((S (S O)), (EAnd ((ECmp (Lt0, (EVar
         ('i'::('2'::[]))), (EVar ('n'::('t'::('2'::[])))))), (ECmp (Lt0,
         (ERead1 ((S O), ('t'::('2'::[])), (EVar ('i'::('2'::[]))))), (EVar
         ('l'::('b'::('o'::('u'::('n'::('d'::[]))))))))))),
         (seq ((SAssign (('i'::('2'::[])), (EBin (Add, (EVar
           ('i'::('2'::[]))), (EInt (Zpos XH)))))) :: [])))) :: ((SWhile ((S
-        (S O)), (EAnd ((ECmp (Gt0, (EVar ('i'::('2'::[]))), (EInt Z0))),
+        (S (S O))), (EAnd ((ECmp (Gt0, (EVar ('i'::('2'::[]))), (EInt Z0))),
         (ECmp (Gt0, (ERead1 ((S (S O)), ('t'::('2'::[])), (EBin (Sub, (EVar
         ('i'::('2'::[]))), (EInt (Zpos XH)))))), (EVar
         ('l'::('b'::('o'::('u'::('n'::('d'::[]))))))))))),
@@ -3306,13 +3336,13 @@ let k__cross_correlogram =
         (('r'::('b'::('o'::('u'::('n'::('d'::[])))))), (EVar
         ('l'::('b'::('o'::('u'::('n'::('d'::[]))))))))) :: ((SAssign
         (('l'::('e'::('f'::('t'::('b'::[]))))), (EVar
-        ('i'::('2'::[]))))) :: ((SFor ((S (S (S O))), ('j'::[]), (EInt Z0),
-        (EVar ('n'::('b'::('i'::('n'::('s'::[])))))),
+        ('i'::('2'::[]))))) :: ((SFor ((S (S (S (S O)))), ('j'::[]), (EInt
+        Z0), (EVar ('n'::('b'::('i'::('n'::('s'::[])))))),
         (seq ((SAssign (('k'::[]), (EInt Z0))) :: ((SAssign
           (('r'::('b'::('o'::('u'::('n'::('d'::[])))))), (EBin (Add, (EVar
           ('r'::('b'::('o'::('u'::('n'::('d'::[]))))))), (EVar
           ('b'::('i'::('n'::('s'::('i'::('z'::('e'::[])))))))))))) :: ((SWhile
-          ((S (S (S (S O)))), (EAnd ((ECmp (Lt0, (EVar
+          ((S (S (S (S (S O))))), (EAnd ((ECmp (Lt0, (EVar
           ('l'::('e'::('f'::('t'::('b'::[])))))), (EVar
           ('n'::('t'::('2'::[])))))), (ECmp (Lt0, (ERead1 ((S (S (S O))),
           ('t'::('2'::[])), (EVar ('l'::('e'::('f'::('t'::('b'::[])))))))),
@@ -3331,7 +3361,7 @@ let k__cross_correlogram =
       (EVar ('b'::('i'::('n'::('s'::('i'::('z'::('e'::[])))))))), (EInt (Zpos
       (XO XH))))))))) :: ((SNew1 (('B'::[]), DFlt, (EVar
       ('n'::('b'::('i'::('n'::('s'::[])))))), (EInt Z0))) :: ((SFor ((S (S (S
-      (S (S O))))), ('j'::[]), (EInt Z0), (EVar
+      (S (S (S O)))))), ('j'::[]), (EInt Z0), (EVar
       ('n'::('b'::('i'::('n'::('s'::[])))))),
       (seq ((SStore1 ((S (S (S (S (S (S O)))))), ('B'::[]), (EVar ('j'::[])),
         (EBin (Add, (EVar ('m'::[])), (EBin (Mul, (EVar ('j'::[])), (EVar
